@@ -66,7 +66,8 @@ def gen_case(rng, tier):
         return f'k{counter[0]}'
 
     def state(r):
-        return {v: r.randrange(10, 99) for v in real}
+        # (falsy current values included: a variable that holds 0 is shown as 0, not as its default)
+        return {v: (0 if r.random() < 0.25 else r.randrange(10, 99)) for v in real}
 
     for gi, (name, G) in enumerate(zip(['pg', 'ph'], GLOBS)):
         if gform == 'below':
